@@ -871,13 +871,22 @@ def check(pid, tier, seed):
                 lines.append(f"VIOLATION property={pid} replay={path}   # clauses {sorted(set('/'.join(c) for c in clauses))} at event {l}")
     # the repository's own tests as a driver: their executions are validated event by event
     repo = None
-    if pid in QUERY_PROPS or pid in ("C04", "C05"):
+    if pid in QUERY_PROPS or pid in ("C04", "C05", "C09", "C10", "C11", "C12", "C13"):
         rb, passed = world.repo_test_traces({pid})
+        shared = set(rb.get("shared_record_objects", []))
         rfails, rst = tlc.validate_traces(rb, timeout=sz["tr_timeout"])
-        repo = {"tests_passed_under_recorder": passed, "converter_traces": len(rb["traces"]), "events": rst["events"],
+        repo = {"tests_passed_under_recorder": passed, "converter_traces": len(rb["traces"]), "tests_sharing_record_objects_between_converters": len(shared),
+                "event_kinds": {}, "events": rst["events"],
                 "answers": sum(len(r["a"]) for t in rb["traces"] for e in t["events"] for r in e["pt"] + e["ppt"]), "failed_clauses": {}}
+        for t_ in rb["traces"]:
+            for e_ in t_["events"]:
+                kk = e_["op"]["k"] + ":" + e_["out"][0]
+                repo["event_kinds"][kk] = repo["event_kinds"].get(kk, 0) + 1
         for tid, l, clause in rfails:
             tags = clause_tags(clause) | ({"C05"} if pid == "C05" and clause[0] == "ans" else set())
+            if clause[0] == "frame" and tid in shared:
+                # the TEST handed one Record object to two converters: no property speaks about caller-provided objects
+                tags = set()
             key = "/".join(clause)
             repo["failed_clauses"][key] = repo["failed_clauses"].get(key, 0) + 1
             if pid in tags:
